@@ -9,11 +9,10 @@ Additions (all are refinements of the M2 abstraction, none removes a path):
       spec.on_index(ex, base, idx, st, node)             every subscript load `base[idx]`
       spec.on_getattr(ex, v, name, st, fr, node)         every attribute load on an opaque value
       spec.on_subscript_store(ex, base, tgt, val, st, fr)  every `base[...] = val`
+      spec.field_like_properties = {names}               properties of `self` stored / read as heap fields
       spec.on_name(ex, name, val, st, fr, node)             every load of a local / global name
   * locals that are mutated in place inside a cut loop (`x.append(..)`, `x[i] = ..`) are havocked like assigned ones;
-  * `opaque - int`, `opaque + int`, `opaque * int` evaluate to the integer term `val_int(opaque) op int`
-    (the opaque operand is an int or the operation raises TypeError, which only removes the path);
-    `list + opaque` / `list += opaque` evaluate to `v_concat(list, opaque)` with `v_empty_list` for `[]`
+  * `list + opaque` / `list += opaque` evaluate to `v_concat(list, opaque)` with `v_empty_list` for `[]`
     (before: statement skipped and the target havocked);
   * the 3-way generator idiom of `_handshakeServerAsyncHelper`
         for r in G(..): if r in (0,1): yield r / elif COND: BODY / else: break
@@ -33,8 +32,8 @@ from . import smt, source
 from .executor import Executor, Frame, Outcome, _assigned_names, _target_names
 from .m2 import M2Executor, M2Task, M2API, M2Spec, fresh_opaque, NoReturn, _reg
 from .state import State
-from .values import (V, VInt, VBool, VNone, VList, VTuple, VOpaque, Unsupported, truthy, to_val, same_value,
-                     val_int, v_truthy)
+from .values import (V, VInt, VBool, VNone, VList, VTuple, VOpaque, VObj, Unsupported, truthy, to_val, same_value,
+                     val_int, v_truthy, fresh_name)
 
 V_CONCAT = z3.Function('v_concat', smt.Val, smt.Val, smt.Val)
 V_EMPTY_LIST = z3.Const('v_empty_list', smt.Val)
@@ -69,7 +68,7 @@ class M2XExecutor(M2Executor):
         from .values import val_axioms
         cache = self.__dict__.setdefault('_vax', {})
         pc = st.pc + ([extra] if extra is not None else [])
-        s = z3.Solver()
+        s = z3.SolverFor('QF_UFLIA')
         s.set('timeout', int(self.opts.get('feasible_ms', 400)))
         for f in pc:
             e = cache.get(f.get_id())
@@ -102,6 +101,18 @@ class M2XExecutor(M2Executor):
             h(self, v, name, st, fr, node)
         return M2Executor.getattr_(self, v, name, st, fr, node)
 
+    def setattr_(self, obj, name, val, st, fr, node):
+        """`spec.field_like_properties`: properties of `self` whose getter returns what the setter stored
+        (assumption stated by the contract): kept as a heap field of the model object"""
+        if isinstance(obj, VObj) and name in getattr(self.spec, 'field_like_properties', ()):
+            hook = self.spec.on_store.get(name)
+            if hook is not None:
+                hook(self, obj, val, st, fr, node)
+            st.heap[(obj.oid, name)] = val
+            st.events.append(('setattr:' + name, [obj, val], None))
+            return [Outcome('normal', st)]
+        return M2Executor.setattr_(self, obj, name, val, st, fr, node)
+
     def assign_subscript(self, tgt, val, st, fr):
         h = getattr(self.spec, 'on_subscript_store', None)
         if h is not None:
@@ -128,20 +139,10 @@ class M2XExecutor(M2Executor):
             return Executor.binop(self, op, a, b, st, node)
         except Unsupported:
             pass
-        ao, bo = isinstance(a, VOpaque), isinstance(b, VOpaque)
-        if isinstance(op, (ast.Add, ast.Sub, ast.Mult)) and ((ao and isinstance(b, VInt)) or
-                                                            (bo and isinstance(a, VInt))):
-            x = val_int(a.t) if ao else a.t
-            y = val_int(b.t) if bo else b.t
-            r = x + y if isinstance(op, ast.Add) else (x - y if isinstance(op, ast.Sub) else x * y)
-            return [Outcome('normal', st, VInt(r))]
-        if isinstance(op, ast.Add):
-            if isinstance(a, VList) or isinstance(b, VList):
-                la, lb = list_to_val(a), list_to_val(b)
-                if la is not None and lb is not None:
-                    return [Outcome('normal', st, VOpaque(V_CONCAT(la, lb)))]
-            if ao and bo:
-                return [Outcome('normal', st, VOpaque(V_ADD(a.t, b.t)))]
+        if isinstance(op, ast.Add) and (isinstance(a, VList) or isinstance(b, VList)):
+            la, lb = list_to_val(a), list_to_val(b)
+            if la is not None and lb is not None:
+                return [Outcome('normal', st, VOpaque(V_CONCAT(la, lb)))]
         raise Unsupported('binop %s on %r, %r' % (type(op).__name__, a, b))
 
     def s_AugAssign(self, node, st, fr):
@@ -231,7 +232,7 @@ class M2XExecutor(M2Executor):
             res, back, outs = self._havoc_loop_once(node, st.fork(), fr, is_for, hv, elem_facts)
             if not refine:
                 break
-            changed = set(targets)
+            changed = set(targets) | (_mutated_locals(node.body) & hv)
             for (entry_env, bst) in back:
                 for n in hv:
                     x, y = entry_env.get(n), bst.env.get(n)
@@ -300,6 +301,7 @@ class M2XExecutor(M2Executor):
                 self._elem_facts(node, itv, body_st, st, fr)
             bstates = [body_st]
             after_states = [after]
+        broken = []
         for bs in bstates:
             entry_env = dict(bs.env)
             for ob in self.exec_block(node.body, bs, fr):
@@ -307,15 +309,26 @@ class M2XExecutor(M2Executor):
                     back.append((entry_env, ob.st))
                     continue
                 if ob.kind == 'break':
-                    after_states.append(ob.st)
+                    broken.append(ob.st)
                 else:
                     res.append(ob)
+        # the state "loop ran to exhaustion" and the states "left by break" share their path-condition prefix;
+        # a fresh boolean makes them exclusive so that the merge below keeps both sets of values
+        # (M2Executor._merge2 selects with the first state's residual condition, which would be `True`)
+        if broken:
+            ex_k = z3.Bool(fresh_name('loop_exhausted'))
+            for a in after_states:
+                a.assume(ex_k)
+            for b in broken:
+                b.assume(z3.Not(ex_k))
         outs = []
         for a in after_states:
             if node.orelse:
                 outs.extend(self.exec_block(node.orelse, a, fr))
             else:
                 outs.append(Outcome('normal', a))
+        for a in broken:                        # `break` skips the loop's else clause
+            outs.append(Outcome('normal', a))
         return res, back, outs
 
     def _elem_facts(self, node, itv, body_st, st, fr):
@@ -366,6 +379,7 @@ def run_m2x(qual, spec, setup=None, opts=None):
     ex = M2XExecutor(_reg(), spec, opts)
     st = State()
     fr = Frame(fs, None)
+    ex.root_fr = fr
     names = [a.arg for a in fs.node.args.posonlyargs + fs.node.args.args]
     for n in names:
         if n == 'self' and fs.cls is not None:
